@@ -24,6 +24,7 @@ Inductive ioclass := IoEof | IoPipe | IoOther.
 Inductive pres :=
   | PPending | PNone | POk (k : nat) (own : bool) | PMErr (k : nat) (own : bool) | PIo (e : ioclass)
   | PTimeout (late : bool) | POther | PAlready.
+Inductive ures := UOk | UPending | UErr | USkip.
 Inductive rdev := RvItem (k : nat) | RvEof | RvErr | RvWait.
 Inductive ptok :=
   | PkRet (i : nat) | PkErr (i : nat) | PkStrayRet | PkStrayErr | PkSig | PkSigRs (i : nat) | PkCallRs (i : nat)
@@ -32,7 +33,12 @@ Inductive oev :=
   | OPoll (i : nat) (ws : list wev) (r : pres)
   | OTick (ran : bool) (rs : list rdev)
   | OPeer (p : ptok) (k : option nat)        (* k = the item number it got; None = skipped (call not on the wire yet) *)
-  | OSleep.
+  | OSleep
+  (* the application makes a MessageStream of its own for the rule type='method_return' (e = false) / type='error' (e = true),
+     polls those creations again, drops those streams.  The statement about the calls does not depend on any of this. *)
+  | OUser (e : bool) (r : ures)
+  | OUserPoll (a b : ures)
+  | OUserDrop.
 Record oline := { o_ev : oev; o_q : nat; o_n : nat; o_closed : bool }.   (* + method-return channel: queue length, receivers, closed *)
 
 (* ---- what the oracle remembers while walking through the history ---- *)
@@ -113,7 +119,7 @@ Definition walk1 (tmo : bool) (st : ost) (o : oline) : ost :=
       | _ => st
       end
   | OPeer _ None => st
-  | OSleep => st
+  | OSleep | OUser _ _ | OUserPoll _ _ | OUserDrop => st
   end.
 
 (* the verdict on one call at the end of a drained history *)
